@@ -19,14 +19,20 @@ def main():
     os.makedirs(SW, exist_ok=True)
     if not os.path.exists(WT):
         sh("git -C /repo worktree add --detach %s HEAD" % WT)
-    sh("git checkout -q --detach $(git -C /repo rev-parse HEAD) && git checkout -- . && git clean -fdq -e target", cwd=WT)
+    sh("git reset -q --hard; git checkout -q --detach $(git -C /repo rev-parse HEAD) && git reset -q --hard && git clean -fdq -e target", cwd=WT)
     out = {"seed": seeddir, "head": sh("git -C /repo rev-parse --short HEAD")[1].strip()}
     demo = os.path.join(WT, "autosar-data", "tests", "seed_demo.rs")
     os.makedirs(os.path.dirname(demo), exist_ok=True)
     shutil.copy(os.path.join(seeddir, "demo.rs"), demo)
     rc, o = sh("cargo test --offline -p autosar-data --test seed_demo 2>&1 | tail -5", cwd=WT)
     out["demo_passes_without"] = "test result: ok" in o
-    rc, o = sh("git apply --3way %s/patch.diff 2>&1 || git apply %s/patch.diff" % (seeddir, seeddir), cwd=WT)
+    rc, o = sh("git apply %s/patch.diff 2>&1" % seeddir, cwd=WT)
+    if rc != 0:
+        # context moved because of later repairs: try a 3-way merge, but never leave a conflicted tree behind
+        rc, o = sh("git apply --3way %s/patch.diff 2>&1" % seeddir, cwd=WT)
+        if rc != 0 or "with conflicts" in o:
+            sh("git reset -q --hard", cwd=WT)
+            rc = 1
     out["applies"] = rc == 0
     if rc != 0:
         out["apply_msg"] = o[-300:]
@@ -43,7 +49,7 @@ def main():
         viol = [l for l in o.splitlines() if l.startswith("VIOLATION")]
         out["checks"][p] = {"rc": rc, "violations": len(viol), "first": (viol[0] if viol else ""), "tail": o.splitlines()[-3:] if rc == 2 else []}
     shutil.rmtree(os.path.join(SW, "work_" + tag), ignore_errors=True)
-    sh("git checkout -- . && git clean -fdq -e target", cwd=WT)
+    sh("git reset -q --hard && git clean -fdq -e target", cwd=WT)
     print(json.dumps(out))
 
 main()
